@@ -141,8 +141,9 @@ ResolveIn(nd, r) ==
            ELSE IF cw = "" THEN Unify(Rec("XferL", <<>>, 0, lw, "", 0), TransferRec(lw, ""))
            ELSE Unify(Rec("Xfer", <<>>, 0, lw, cw, 0), TransferRec(lw, cw))
      \* -- names
-     [] r.op = "get_identifier" -> Same(IdentKey(r.w))
-     [] r.op = "get_operator" -> Same(Rec("Operator", <<>>, 0, r.w, "", 0))
+     \* (the _s variants go through the overload taking an interned String instead of a word view: same request)
+     [] r.op \in {"get_identifier", "get_identifier_s"} -> Same(IdentKey(r.w))
+     [] r.op \in {"get_operator", "get_operator_s"} -> Same(Rec("Operator", <<>>, 0, r.w, "", 0))
      [] r.op = "get_suffix" -> Same(Rec("Suffix", <<a[1]>>, 0, "", "", 0))
      [] r.op = "get_conversion" -> Same(Rec("Conversion", <<a[1]>>, 0, "", "", 0))
      [] r.op = "get_ctor_name" -> Same(Rec("Ctor_name", <<a[1]>>, 0, "", "", 0))
@@ -156,8 +157,8 @@ ResolveIn(nd, r) ==
            IF a[1] = DefaultNameId THEN Known(DefaultId)
            ELSE Same(Rec("Symbol", <<a[1], VoidId>>, 0, "", "", VoidId))
      [] r.op = "get_this" -> Same(Rec("Symbol", <<ThisNameId, a[1]>>, 0, "", "", a[1]))
-     [] r.op \in {"get_literal", "make_literal"} -> Same(Rec("Literal", <<a[1]>>, 0, r.w, "", a[1]))
-     [] r.op = "get_linkage" ->
+     [] r.op \in {"get_literal", "make_literal", "get_literal_s", "make_literal_s"} -> Same(Rec("Literal", <<a[1]>>, 0, r.w, "", a[1]))
+     [] r.op \in {"get_linkage", "get_linkage_s"} ->
            IF r.w = "C++" THEN Known(CxxLinkId)
            ELSE IF r.w = "C" THEN Known(CLinkId)
            ELSE Same(Rec("Linkage", <<>>, 0, r.w, "", 0))
